@@ -114,6 +114,9 @@ func Verify(root *etree.Element, sigpath string, extraCerts []*x509.Certificate)
 	if err != nil {
 		return nil, errors.New("xmldsig: invalid signature")
 	}
+	// a timestamp countersigns the signature value exactly as it appears in
+	// the document, so keep that form for callers
+	rawSigv := sigv
 	if pubtype == "ecdsa" {
 		// reformat with ASN.1 structure
 		sig, err := x509tools.UnpackEcdsaSignature(sigv)
@@ -181,7 +184,7 @@ func Verify(root *etree.Element, sigpath string, extraCerts []*x509.Certificate)
 		PublicKey:       pubkey,
 		Certificates:    certs,
 		Hash:            hash,
-		EncryptedDigest: sigv,
+		EncryptedDigest: rawSigv,
 		Reference:       reference,
 	}, nil
 }
